@@ -307,7 +307,7 @@ Qed.
 
 Lemma read_entries_no_pfuel : forall fuel cnt acc s, read_entries fuel cnt acc s <> DErr (DProto PFuel).
 Proof.
-  induction fuel as [|f IH]; intros cnt acc s; cbn [read_entries].
+  induction fuel as [|x0 f IH]; intros cnt acc s; cbn [read_entries].
   - destruct (cnt =? 0); discriminate.
   - destruct (cnt =? 0); [discriminate|].
     destruct (read_u64 s) as [[size s1]|e] eqn:E1; cbn [dbind].
@@ -330,7 +330,7 @@ Proof.
     2:{ apply read_u64_err_inv in E1. destruct E1; subst; discriminate. }
     destruct (read_bytes_limit / 8 <? l); [discriminate|].
     destruct (make_panics l entry_sizeof); [discriminate|].
-    destruct (read_entries (S (length s2)) l [] s2) as [[es s3]|e] eqn:E2; cbn [dbind].
+    destruct (read_entries (0 :: s2) l [] s2) as [[es s3]|e] eqn:E2; cbn [dbind].
     2:{ intro H; inversion H; subst. eapply read_entries_no_pfuel; eauto. }
     destruct (read_u64 s3) as [[commit s4]|e] eqn:E3; cbn [dbind]; [discriminate|].
     apply read_u64_err_inv in E3. destruct E3; subst; discriminate. }
